@@ -75,7 +75,7 @@ def build(case):
     q = JobQueue(max(len(out), case["depth"]), monitor_interval=None)
     G.update(runs=0, collected=set(), collected_failed=set())
     for x in out:
-        j = FJ(x, done=rng.random() < 0.6, rc=rng.choice([0, 0, 1]))
+        j = FJ(x, done=rng.random() < 0.6, rc=rng.choice([0, 0, 1, -9, 137]))      # -9: killed by a signal (Popen reports -signum)
         j.g_launched = 1
         q._outstanding_jobs[x] = j
         q._num_jobs += 1
@@ -86,9 +86,40 @@ def build(case):
     return q
 
 
+def failure_closure(out0, queued0):
+    """C04 oracle, independent of the code: names that end up failed = outstanding jobs complete with a non-zero code, plus - transitively - every
+    flagged queued job with a blocker among them (a canceled job counts as failed)."""
+    failed = {j.name for j in out0 if j.g_done_final and j.rc0 != 0}
+    changed = True
+    canceled = set()
+    while changed:
+        changed = False
+        for j in queued0:
+            if j.name not in canceled and j.flag0 and j.blocking0 & failed:
+                canceled.add(j.name)
+                failed.add(j.name)
+                changed = True
+    return canceled
+
+
 def run_check_completions(S, case):
     q = build(case)
-    return check_call(S, "JobQueue._check_completions", JobQueue._check_completions, [q], ghost=G)
+    out0, queued0 = list(q._outstanding_jobs.values()), list(q._queued_jobs)
+    for j in out0 + queued0:
+        j.rc0, j.flag0, j.blocking0 = j.rc, j.cancel_on_blocking_job_failure, set(j.get_blocking_jobs())
+        j.g_done_final = j.g_done
+    r = check_call(S, "JobQueue._check_completions", JobQueue._check_completions, [q], ghost=G)
+    if r.get("pre_ok", True) and r["ok"]:
+        for j in out0:
+            j.g_done_final = j.g_done
+        # only outstanding jobs that were not yet seen complete can complete in this call; which of them did is read off after the call
+        want = failure_closure(out0, queued0)
+        got = {j.name for j in queued0 if j.g_canceled}
+        if got != want:
+            r["ok"] = False
+            r["failed"].append(f"C04: canceled queued jobs {sorted(got)} != flagged jobs with a failed blocker, transitively {sorted(want)} "
+                               f"(failed outstanding: {sorted(j.name for j in out0 if j.g_done and j.rc0 != 0)})")
+    return r
 
 
 def run_process_queue(S, case):
